@@ -507,6 +507,32 @@ pub fn run(ctx: &Ctx) {
             judge(&[elems], &[Layout::default()], &format!("{} referencing targets {:?} (document order {:?})", if c[3] == 0 { "frame with PDU instances" } else { "PDU with signal instances" }, q, order), loc);
         }));
     }
+    // G6b2: equal sequence numbers.  The statement orders by sequence number and says nothing about
+    // ties, so the tied instances reference the SAME target: whatever order a loader gives them, the
+    // model is the same - but every instance must still be there
+    {
+        let shapes: Vec<Vec<(usize, usize)>> = vec![vec![(0, 0), (0, 0)], vec![(0, 1), (0, 1), (0, 1)], vec![(0, 0), (1, 1), (1, 1)], vec![(1, 2), (0, 5), (0, 5), (1, 9)], vec![(0, 3), (0, 3), (1, 3), (1, 3)].into_iter().take(2).collect(), vec![(1, 0), (0, 7), (0, 7), (0, 7), (1, 8)]];
+        let sp = Space::new(&[shapes.len(), 2, 2]);
+        let s2 = sp.clone();
+        let shapes = &shapes;
+        ctx.run_family(Family::new("c11.sequence_ties", sp.size(), "PDU instances of a FRAME / signal instances of a PDU with EQUAL sequence numbers among instances that reference the same target (2-3 tied instances, alone or among others) x document order as listed / reversed: every instance yields its entry", move |i, loc| {
+            let c = s2.coords(i);
+            let mut q = shapes[c[0]].clone();
+            if c[1] == 1 {
+                q.reverse();
+            }
+            let elems: Vec<Elem> = if c[2] == 0 {
+                let pids = ["P1", "P2"];
+                let refs: Vec<(&str, usize)> = q.iter().map(|(t, s)| (pids[*t], *s)).collect();
+                vec![Elem::Pdu(pdu("P1", Desc::Text("one".into()), &[("S_UINT8", 0)])), Elem::Pdu(pdu("P2", Desc::Absent, &[("S_SINT16", 0), ("S_BOOL", 1)])), Elem::Frame(frame("ID_1", "f", &refs, None))]
+            } else {
+                let sids = ["S_UINT8", "S_STRG_UTF8"];
+                let refs: Vec<(&str, usize)> = q.iter().map(|(t, s)| (sids[*t], *s)).collect();
+                vec![Elem::Pdu(pdu("P1", Desc::Absent, &refs)), Elem::Frame(frame("ID_1", "f", &[("P1", 0)], None))]
+            };
+            judge(&[elems], &[Layout::default()], &format!("{} with (target, sequence number) list {:?}", if c[2] == 0 { "frame" } else { "PDU" }, q), loc);
+        }));
+    }
     // G6c: BYTE-LENGTH is not part of the model: whatever it says, the PDU keeps its signals and the
     // frame its PDUs
     {
